@@ -202,7 +202,7 @@ func runC19Fanout(ctx *core.Ctx) {
 	ctx.Res.Exhaustive = true
 	// ---- model-sampled runs on 2..6 services
 	for n := 2; n <= 6; n++ {
-		k := ctx.Pick(150, 600)
+		k := ctx.Pick(150, 1500)
 		for i := 0; i < 4; i++ {
 			res := make([]int, n)
 			for v := range res {
@@ -227,7 +227,7 @@ func runC19Fanout(ctx *core.Ctx) {
 		}
 	}
 	// ---- seeded random schedules chosen by the harness (with blocked-step probes)
-	nr := ctx.Pick(4000, 30000)
+	nr := ctx.Pick(4000, 60000)
 	for i := 0; i < nr; i++ {
 		n := ctx.Rng.Intn(7)
 		res := make([]int, n)
